@@ -24,9 +24,10 @@ CHECKS = [
     dict(property_id="C05",
          text="Decides exactly the Boolean structure of _contains of union/cut/intersection/product and their boundaries (truth table vs set algebra under "
               "closedness/genericity), the pull-back structure of Translate/Rotate, row-wise evaluation of shape functions, the Cramer identity of the "
-              "barycentric solve, purity of membership tests and the name-based column selection. Primitive predicates and tolerances are NOT decided.",
+              "barycentric solve, purity of membership tests, the name-based column selection and that the absolute slack of boundary side tests on computed "
+              "barycentric coordinates (isclose atol + rtol*|c|, widened unit range) is not below float32 resolution. Primitive predicates and the sufficiency of tolerances are NOT decided.",
          note=_T,
-         technique=_SA + "Boolean formula extraction + truth tables, free-module term algebra, rational-function identities"),
+         technique=_SA + "Boolean formula extraction + truth tables, free-module term algebra, rational-function identities, constant propagation of tolerance arguments through helper call sites"),
     dict(property_id="C07",
          text="Static decision of necessary structural conditions of the Solver step: loss polynomial == sum weight_i*loss_i, whole-range loop, step "
               "index, counter, ModuleList wrapping, optimizer over self.parameters(), registration of every condition-held Parameter, "
@@ -35,7 +36,8 @@ CHECKS = [
          technique=_SA + "path enumeration + def-use expansion, polynomial normal form, class-hierarchy queries"),
     dict(property_id="C08",
          text="Decides that every point-wise model routes its input through the name-based re-ordering before any use (taint/must-pass-through), the "
-              "sanitiser itself, Parallel/Sequential composition structure, input-derived state, output labelling and the selection primitive. Row "
+              "sanitiser itself, Parallel/Sequential composition structure, input-derived state, output labelling, the selection and join primitives "
+              "(requested order of Space[[names]], column pairing of Points.joined) and the absence of size-dependent axis removal. Row "
               "independence of arbitrary tensor code is NOT decided (re-arranging ops are reported UNDECIDED).",
          note=_T + "Sub-models handed to compositions are torchphysics Models.",
          technique=_SA + "taint analysis on expanded path expressions, class-hierarchy attribute typing, axis-role interpretation, partial evaluation of the sanitiser on a table model over all orders of three variables"),
@@ -72,7 +74,7 @@ CHECKS = [
     dict(property_id="C06",
          text="Decides operand selection and sign of normals on Boolean boundaries, unit length and perpendicularity of edge normals as polynomial identities "
               "(in-place column updates modelled), radial normals, sign-definiteness of n·(opposite vertex - edge start) under vertex orientation, and the "
-              "direction constants of interval end points. Outwardness as geometry, NaNs and meshes are NOT decided.",
+              "direction constants of interval end points, and that the side lookup of polygon normals uses a slack above float32 resolution. Outwardness as geometry, NaNs in general and meshes are NOT decided.",
          note=_T + "Points passed to normal() lie on the boundary; operands' own normals are outward (induction).",
          technique=_SA + "symbolic vector evaluation in rational normal form, sibling agreement of edge tests between membership and normal, uniform-mask short cuts"),
     dict(property_id="C09",
